@@ -144,6 +144,7 @@ class Run:
         self.tick = TICK
         self.spun = False
         self.escaped_injected = False
+        self.ops_delivery = cfg.get('delivery') == 'ops'
         self.answers = call_answers(cfg.get('base', 'idle'))
 
     # --- clock
@@ -192,24 +193,37 @@ class Run:
             return
         raise make_error(out)
 
-    # --- wake-ups
+    # --- wake-ups and the other operations on the trigger event
+    def deliver(self, i, ev, where):
+        kind, mname, val = ev
+        self.taken.append((i, f'{where}: {kind} {mname} {val if val is not None else ""}'.strip()))
+        self.trace.append(('event', self.t, kind, mname, val))
+        self.apply_event(kind, self.modules[mname], val)
+
     def wait(self, event, timeout):
         if event.flag:
             return True
         self.worked()
         t0 = self.t
         timeout = 999 if timeout is None else timeout
-        i, a = self.choice(len(self.event_alphabet))
+        nev = len(self.event_alphabet)
+        # delivery points of an external event: while the thread sleeps (after a quarter of the sleep), or - in
+        # configurations with 'delivery': 'ops' - right before the wait looks at the flag, i.e. between the computation of
+        # the wait time and the sleep (answers nev .. 2 nev - 2)
+        i, a = self.choice(2 * nev - 1 if self.ops_delivery else nev)
+        if a >= nev:
+            self.deliver(i, self.event_alphabet[a - nev + 1], 'before-wait')
+            if event.flag:
+                self.trace.append(('wait', t0, self.t))
+                return True
+            a = 0
         ev = self.event_alphabet[a]
         rest = timeout
         if ev is not None:
             self.t += timeout * EVENT_FRACTION
             rest = timeout * (1 - EVENT_FRACTION)
             if self.t < self.horizon:
-                kind, mname, val = ev
-                self.taken.append((i, f'wake-up: {kind} {mname} {val if val is not None else ""}'.strip()))
-                self.trace.append(('event', self.t, kind, mname, val))
-                self.apply_event(kind, self.modules[mname], val)
+                self.deliver(i, ev, 'wake-up')
                 if event.flag:
                     self.trace.append(('wait', t0, self.t))
                     return True
@@ -220,6 +234,15 @@ class Run:
             raise Horizon
         self.trace.append(('wait', t0, self.t))
         return event.flag
+
+    def before_clear(self, event):
+        """'delivery': 'ops' configurations: an external event may land right before the thread clears its trigger"""
+        if not self.ops_delivery:
+            return
+        self.worked()
+        i, a = self.choice(len(self.event_alphabet))
+        if a:
+            self.deliver(i, self.event_alphabet[a], 'before-clear')
 
     @staticmethod
     def apply_event(kind, mod, val):
@@ -257,6 +280,7 @@ class FakeEvent:
         self.flag = True
 
     def clear(self):
+        CUR.before_clear(self)
         self.flag = False
 
     def is_set(self):
@@ -670,8 +694,9 @@ def judge(world, run):
 
 
 def outcome_key(run, verdicts):
-    devs = sorted({d.split(': ')[0].split('.')[-1].split(':')[0] + '/' + d.rsplit(' ', 1)[-1] if not d.startswith('wake')
-                   else d.split()[1] for _, d in run.taken})
+    devs = sorted({d.split(': ')[0].split('.')[-1].split(':')[0] + '/' + d.rsplit(' ', 1)[-1]
+                   if d.split(':')[0] not in ('wake-up', 'before-wait', 'before-clear')
+                   else (d.split()[1] if d.startswith('wake') else d.split(':')[0] + '/' + d.split()[1]) for _, d in run.taken})
     return f'{run.end[0]}|{"+".join(devs) or "default"}|{"VIOLATION" if verdicts else "ok"}'
 
 
@@ -706,8 +731,14 @@ def configs(tier):
     # extended event alphabet (setFastPoll(True, 0))
     for layout, ivals in (('S', [(5, 15)]), ('S', [(1, 2)])):
         add(layout, ivals, devs='events', events='ext', bound=3, cap=EVENT_CAP)
+    # external events landing at the thread's own operations on the trigger event (right before wait() looks at the flag,
+    # right before clear()), i.e. between the computation of the wait time and the sleep: <= 2 deviations, events only
+    for layout, ivals in (('S', [(5, 15)]), ('S', [(1, 2)])):
+        add(layout, ivals, devs='events', events='ext', delivery='ops', bound=2, cap=EVENT_CAP)
     if tier != 'quick':
         add('io+S+T', [(5, 2), (1, 2)], devs='events', events='ext', bound=3, cap=EVENT_CAP)
+        add('io+S+T', [(5, 2), (1, 2)], devs='events', events='ext', delivery='ops', bound=2, cap=EVENT_CAP)
+        add('IO+S', [(5, 15), (1, 2)], devs='events', events='ext', delivery='ops', bound=2, cap=EVENT_CAP)
         add('IO+S', [(5, 15), (1, 2)], phase=0)
         add('S', [(0.1, 2)])
         for pair in matched:
